@@ -21,7 +21,9 @@ FORMS = {"$(": (")", "subproc_captured"), "$[": ("]", "subproc_uncaptured"), "!(
 ALPHA = "abcdefghijklmnopqrstuvwxyzABCXYZ0123456789_-./=:,+%^~*<>|&;@"
 SPECIAL_WORDS = ["1e5x", "0x1f", "1_000", "3j", "1.", ".5", "->", "**", "//", "<<=", ":=", "...", "2>&1", "e>o", "a>&2", "&&", "||", "&", "|", ">", ">>", "<", "-l", "--opt=1", "-am",
                  "sub-cmd", "x.py", "../a/b.c", "~/.config", "/usr/bin/env", "a=b", "k:v", "1,2", ",", "+x", "%y", "^z", "*.py", "a*b?c".replace("?", ""), "http://h:80/p", "é", "naïve", "日本",
-                 "föö-bär", "1..2", "a..b", "0b101", "1e-5", "1_0.0_1j", "v1.2.3", "user@host", "@", "-", "--", "a;b", ";", "==", "!=".replace("!", "="), "x=1,y=2", "C:/x", "a+b=c", "00", "0_0", "1__0".replace("__", "_")]
+                 "föö-bär", "1..2", "a..b", "0b101", "1e-5", "1_0.0_1j", "v1.2.3", "user@host", "@", "-", "--", "a;b", ";", "==", "!=".replace("!", "="), "x=1,y=2", "C:/x", "a+b=c", "00", "0_0", "1__0".replace("__", "_"),
+                 # words that are not stable under NFKC / case folding: subprocess words are passed verbatim, never normalised like identifiers
+                 "\ufb01le.txt", "5\u00b5s", "x\u00aa", "n\u00ba=1", "\uff46\uff55\uff4c\uff4c", "\u017ft", "\u2167", "\u00b5", "a\u0301", "\u212bngstrom", "\u1e9e"]
 _KW = set(keyword.kwlist)
 _IDENT_CH = re.compile(r"[\w]")
 
